@@ -161,6 +161,8 @@ func (w *World) Exec(op Op, ctx context.Context) {
 		switch op.Kind {
 		case "call", "ctx":
 			val, err = c.P.Call(ctx, op.Tok)
+		case "callbig":
+			val, err = c.P.CallBig(ctx, op.Tok, Result(op.Tok, op.N))
 		case "retry":
 			val, err = c.P.CallRetry(ctx, op.Tok)
 		case "retry-noctx":
@@ -340,7 +342,7 @@ func (w *World) CheckOwnResults(oracle string, allowConnErr bool) {
 			continue
 		}
 		switch kind {
-		case "call", "retry", "alias", "ctx", "retry-noctx", "call-noctx":
+		case "call", "retry", "alias", "ctx", "retry-noctx", "call-noctx", "callbig":
 		default:
 			continue
 		}
